@@ -842,11 +842,6 @@ fn compare_search(rep: &mut Report, stream: &str, op: &Op, res: &Result<Vec<(Str
     if ma.kind.starts_with("err") {
         return (format!("ok {} results", imp_res.len()), ma.kind.clone());
     }
-    if ma.kind == "index_dim_mismatch" {
-        // the model leaves this unspecified (the real code panics or scores garbage); the oracle judges it
-        rep.hit("search.index_consulted_with_other_dimension");
-        return ("unspecified".into(), "unspecified".into());
-    }
     if ma.kind == "zero" {
         return (if imp_res.is_empty() { "zero".into() } else { format!("ok {} results", imp_res.len()) }, "zero".into());
     }
@@ -1284,10 +1279,10 @@ fn run_seq(cx: &mut Ctx, stream: &str, ops: &[Op]) {
             }
             Obs::Panic(p) => {
                 cx.rep.hit("impl.panic");
-                // the model has no panics: the only place it allows one is where it says "unspecified"
+                // the model has no panics (cached_index_dimension_guard: the index never sees a
+                // query of another dimension): any panic of the engine is a disagreement
                 let sname = format!("{stream}.{}", op.tag());
-                let shown = if ans.starts_with("index_dim_mismatch") { ans.clone() } else { format!("panic: {p}") };
-                cx.rep.compare(&sname, || json!({"ops": ops_json(&ops[..=i])}), &shown, &ans);
+                cx.rep.compare(&sname, || json!({"ops": ops_json(&ops[..=i])}), &format!("panic: {p}"), &ans);
             }
             Obs::Search { res, .. } => {
                 let ma = parse_model(&ans);
@@ -1353,7 +1348,35 @@ fn directed() -> Vec<(&'static str, Vec<Op>)> {
         v: v.to_vec(),
         md: md.iter().map(|(a, b)| (a.to_string(), *b)).collect(),
     };
+    let pf_md = |v: i64| -> Md { vec![("f".to_string(), v)] };
     vec![
+        // the two KNOWN FINDINGS (post-filter with a truncated oversample pool) are reproduced
+        // first, deterministically, so that their classes are reported from these traces on every run
+        (
+            "post-filter-oversample",
+            vec![
+                Op::StoreMeta { key: "a".into(), v: vec![4, 0], md: pf_md(0) },
+                Op::StoreMeta { key: "b".into(), v: vec![4, 1], md: pf_md(0) },
+                Op::StoreMeta { key: "c".into(), v: vec![4, 2], md: pf_md(0) },
+                Op::StoreMeta { key: "d".into(), v: vec![4, 3], md: pf_md(0) },
+                Op::StoreMeta { key: "e".into(), v: vec![0, 1], md: pf_md(1) },
+                Op::SearchF { q: vec![1, 0], k: 1, strat: Strat::Pre, os: 3, f: F::Cmp("eq", "f".into(), 1) },
+                Op::SearchF { q: vec![1, 0], k: 1, strat: Strat::Auto, os: 3, f: F::Cmp("eq", "f".into(), 1) },
+            ],
+        ),
+        (
+            "collection-post-filter-oversample",
+            vec![
+                cs("c0", "a", &[4, 0], &[("f", 0)]),
+                cs("c0", "b", &[4, 1], &[("f", 0)]),
+                cs("c0", "c", &[4, 2], &[("f", 0)]),
+                cs("c0", "d", &[4, 3], &[("f", 0)]),
+                cs("c0", "e", &[0, 1], &[("f", 1)]),
+                Op::CSearchF { c: "c0".into(), q: vec![1, 0], k: 1, strat: Strat::Pre, os: 3, f: F::Cmp("eq", "f".into(), 1) },
+                Op::CSearchF { c: "c0".into(), q: vec![1, 0], k: 1, strat: Strat::Post, os: 3, f: F::Cmp("eq", "f".into(), 1) },
+                Op::CSearchF { c: "c0".into(), q: vec![1, 0], k: 1, strat: Strat::Auto, os: 3, f: F::Cmp("eq", "f".into(), 1) },
+            ],
+        ),
         ("index-then-delete", vec![s("a", &[1, 0, 0]), s("b", &[0, 1, 0]), b.clone(), Op::Del { key: "a".into() }, se(&[1, 0, 0], 5)]),
         ("index-then-overwrite", vec![s("a", &[1, 0, 0]), s("b", &[0, 1, 0]), b.clone(), s("a", &[0, 0, 1]), se(&[1, 0, 0], 5), Op::Get { key: "a".into() }]),
         ("index-then-batch-delete", vec![s("a", &[1, 0, 0]), s("b", &[0, 1, 0]), b.clone(), Op::BatchDel { keys: vec!["a".into()] }, se(&[1, 0, 0], 5)]),
@@ -1388,18 +1411,6 @@ fn directed() -> Vec<(&'static str, Vec<Op>)> {
             ],
         ),
         (
-            "post-filter-oversample",
-            vec![
-                Op::StoreMeta { key: "a".into(), v: vec![4, 0], md: vec![("f".into(), 0)] },
-                Op::StoreMeta { key: "b".into(), v: vec![4, 1], md: vec![("f".into(), 0)] },
-                Op::StoreMeta { key: "c".into(), v: vec![4, 2], md: vec![("f".into(), 0)] },
-                Op::StoreMeta { key: "d".into(), v: vec![4, 3], md: vec![("f".into(), 0)] },
-                Op::StoreMeta { key: "e".into(), v: vec![0, 1], md: vec![("f".into(), 1)] },
-                Op::SearchF { q: vec![1, 0], k: 1, strat: Strat::Pre, os: 3, f: F::Cmp("eq", "f".into(), 1) },
-                Op::SearchF { q: vec![1, 0], k: 1, strat: Strat::Auto, os: 3, f: F::Cmp("eq", "f".into(), 1) },
-            ],
-        ),
-        (
             "collection-prefilter-metric",
             vec![
                 Op::Create { c: "c2".into(), dim: Some(2), m: Metric::Euc },
@@ -1408,10 +1419,37 @@ fn directed() -> Vec<(&'static str, Vec<Op>)> {
                 Op::CSearch { c: "c2".into(), q: vec![2, 0], k: 2 },
                 Op::CSearchF { c: "c2".into(), q: vec![2, 0], k: 2, strat: Strat::Post, os: 3, f: F::Ex("f".into()) },
                 Op::CSearchF { c: "c2".into(), q: vec![2, 0], k: 2, strat: Strat::Pre, os: 3, f: F::Ex("f".into()) },
+                Op::CSearchF { c: "c2".into(), q: vec![2, 0], k: 1, strat: Strat::Auto, os: 3, f: F::Cmp("eq", "f".into(), 7) },
+                // zero query: nothing under cosine only; Euclid / dot rank by distance to the origin
+                Op::CSearch { c: "c2".into(), q: vec![0, 0], k: 2 },
+                Op::CSearchF { c: "c2".into(), q: vec![0, 0], k: 2, strat: Strat::Pre, os: 3, f: F::Ex("f".into()) },
+                Op::CSearchF { c: "c2".into(), q: vec![0, 0], k: 2, strat: Strat::Post, os: 3, f: F::Ex("f".into()) },
+                Op::Create { c: "c1".into(), dim: None, m: Metric::Dot },
+                cs("c1", "small", &[1, 1], &[("f", 1)]),
+                cs("c1", "big", &[-60, 1], &[("f", 1)]),
+                Op::CSearchF { c: "c1".into(), q: vec![-1, 0], k: 2, strat: Strat::Pre, os: 3, f: F::Ex("f".into()) },
+                Op::CSearchF { c: "c1".into(), q: vec![0, 0], k: 2, strat: Strat::Pre, os: 3, f: F::Ex("f".into()) },
+                Op::CSearchF { c: "c0".into(), q: vec![0, 0], k: 2, strat: Strat::Pre, os: 3, f: F::Ex("f".into()) },
             ],
         ),
-        ("index-longer-query", vec![s("a", &[1, 0, 0]), s("b", &[0, 1, 0]), b.clone(), se(&[1, 0, 0, 5], 5)]),
-        ("index-shorter-query", vec![s("a", &[1, 0, 0]), s("b", &[0, 1, 0]), b.clone(), se(&[1, 0], 5)]),
+        ("index-longer-query", vec![s("a", &[1, 0, 0]), s("b", &[0, 1, 0]), b.clone(), se(&[1, 0, 0, 5], 5), se(&[0, 1, 0], 5)]),
+        ("index-shorter-query", vec![s("a", &[1, 0, 0]), s("b", &[0, 1, 0]), b.clone(), se(&[1, 0], 5), se(&[0, 1, 0], 5)]),
+        (
+            "index-other-dimension-stored",
+            vec![s("a", &[1, 0, 0]), s("b", &[0, 1, 0]), Op::Build { via_engine: false }, Op::BatchDel { keys: vec!["zz".into()] }, se(&[0, 1, 0], 5), se(&[1, 0], 5)],
+        ),
+        (
+            "collection-index-other-dimension-query",
+            vec![
+                cs("c1", "a", &[1, 0, 0], &[("f", 1)]),
+                cs("c1", "b", &[0, 1, 0], &[("f", 1)]),
+                Op::CBuild { c: "c1".into() },
+                Op::CSearch { c: "c1".into(), q: vec![1, 0, 0, 5], k: 5 },
+                Op::CSearch { c: "c1".into(), q: vec![1, 0], k: 5 },
+                Op::CSearchF { c: "c1".into(), q: vec![1, 0], k: 5, strat: Strat::Post, os: 3, f: F::Ex("f".into()) },
+                Op::CSearch { c: "c1".into(), q: vec![1, 0, 0], k: 5 },
+            ],
+        ),
         (
             "mixed-dimension-ties",
             vec![s("a", &[1, 2]), s("b", &[2, 4]), s("c", &[-1, -2]), s("d", &[1, 2, 3]), s("z", &[0, 0]), se(&[3, 6], 2), se(&[3, 6], 50), Op::SearchM { m: Metric::Euc, q: vec![0, 0], k: 3 }, Op::SearchM { m: Metric::Dot, q: vec![1, 1], k: 4 }],
@@ -1498,13 +1536,8 @@ fn main() {
          non-trivial when it has >=1 successful mutation and >=1 search with a non-empty result; distinct = distinct op text. \
          bits: random f32 bit patterns, non-trivial when not all +0.0",
     );
-    let variant = args.extra.iter().position(|x| x == "--variant").and_then(|i| args.extra.get(i + 1)).cloned().unwrap_or_else(|| "current".into());
     let mut m = Model::spawn(&args.driver);
-    let a = m.ask(&format!("variant {variant}"));
-    if a != "ok" {
-        rep.disagree("driver", json!({"line": format!("variant {variant}")}), "ok", &a);
-    }
-    rep.note(&format!("model variant: {variant} (current = /repo as it is; fixed = with proposed/C06-invalidate-hnsw-cache.diff)"));
+    rep.note("model = /repo with a71cd63e (every mutation invalidates the cached index), B1 (cached index consulted only for a query of the indexed dimension) and B2 (collection pre-filter scores with the collection's metric); post-filter search is modelled as it is (oversample, then filter) and its misses are reported by the oracle as the known findings vector_engine.search_similar_filtered/not_topk and vector_engine.search_filtered_in_collection/not_topk (directed reproductions run first)");
     let root = Rng::new(args.seed);
     let scale: u64 = if args.thorough { 12 } else { 1 };
 
